@@ -112,7 +112,8 @@ def run(chk):
             # a helper the pinned tree does not have, private by name, is not an API of the library: its parameters are whatever its
             # callers pass (an output buffer, usually), and every caller is analysed through it (inlined or followed) with its own
             # arguments, so a write that reaches a caller's argument is still reported there
-            new_private = fi.qualname not in pinned() and fi.name.startswith("_") and not fi.name.startswith("__")
+            new_private = fi.qualname not in pinned() and not fi.name.startswith("__") and \
+                (fi.name.startswith("_") or fi.module.name.split(".")[-1].startswith("_"))      # also: any function of a new private module
             # NumPy's convention for an output buffer: a parameter `out=None` of a function the pinned tree does not have is where the
             # result is written when the caller asks for it -- an output, not an input
             out_params = {"p:" + p_ for p_ in (list(fi.params) + list(fi.kwonly)) if p_ == "out" and p_ in fi.defaults and
@@ -136,7 +137,9 @@ def run(chk):
                 elif e.kind == "note" and "overwrite_x" in (e.what or ""):
                     if param_tokens(e.origins or ()):
                         chk.note("%s: %s" % (e.loc, e.what))
-                if e.kind == "attr-write" and e.attr == "_values" and e.obj is not None and e.via == "plain":
+                if e.kind == "attr-write" and e.attr == "_values" and e.obj is not None and e.via == "plain" and not \
+                        (new_private and e.fn == fi.qualname):
+                    # (a new private method that stores its parameter is judged at its callers, which are analysed through it with what they pass)
                     stores.append((e, construct, st))
             for n in notes:
                 chk.note(n)
